@@ -98,7 +98,44 @@ class C02(Prop):
                 break
         return b"".join(parts)[:64]
 
+    def gen_shared_prefix(self, rng):
+        """alternatives that share a prefix and differ in length by more than the atom window, plus an
+        alternative taken from the middle: matches at one offset arrive at different times, with a match at
+        a larger offset saved in between (exercises the sorted, one-per-offset insertion)."""
+        k = rng.range(8, 11)
+        if rng.chance(1, 2):
+            w = [rng.choice([0x61, 0x62])] * 0 + [[0x61, 0x62][i % 2] for i in range(k)]      # abab...
+        else:
+            w = [0x61 + i for i in range(k)] if rng.chance(1, 2) else [rng.choice([0x61, 0x62, 0x63, 0x64]) for _ in range(k)]
+        alts = [w[:4], w[:8]]
+        if rng.chance(2, 3):
+            a = rng.range(1, 3)
+            alts.append(w[a:a + rng.range(3, 5)])
+        if rng.chance(1, 3):
+            alts.append(w[:6])
+        alts = rng.shuffle(alts)
+        toks = [["alt", [[["b", b] for b in a] for a in alts]]]
+        if rng.chance(1, 2):
+            toks += [["j", 0, rng.range(1, 3)], ["b", 0x7A]]
+        elif rng.chance(1, 2):
+            toks = [["m", 0, "A"]] + toks
+        wb = bytes(w)
+        inputs = []
+        for i in range(4):
+            r = rng.fork("sp%d" % i)
+            parts = []
+            for _ in range(r.range(1, 3)):
+                parts.append(r.bytes(r.range(0, 3), [0x61, 0x62, 0x7A, 0x20]))
+                parts.append(wb[:r.choice([4, 6, 8, len(wb)])] if r.chance(1, 3) else wb)
+                if r.chance(1, 2):
+                    parts.append(b"z")
+            inputs.append(b"".join(parts)[:64].hex())
+        src = "rule r { strings: $a = { %s } condition: $a or true }" % _hir.hex_text(toks)
+        return {"toks": toks, "src": src, "inputs": inputs}
+
     def gen_case(self, rng):
+        if rng.chance(1, 8):
+            return self.gen_shared_prefix(rng)
         toks = self.gen_tokens(rng, 0, False, 8)
         used = sorted(_hir.hex_bytes_used(toks, set()))
         alphabet = (used * 3 + ALPHA[:4]) if used else ALPHA
